@@ -24,6 +24,7 @@ import (
 	"verif/harness/c08dns"
 	"verif/harness/c08ndp"
 	"verif/harness/c03dhcp"
+	"verif/harness/c03dns"
 	"verif/harness/c11"
 	"verif/harness/c13"
 	"verif/harness/c18"
@@ -39,11 +40,21 @@ var runners = map[string]core.Runner{
 	"C01": c01.Runner01,
 	"C02": c01.Runner02,
 	"C16": c01.Runner16,
-	"C03": {Gen: func(c *core.Ctx) { c03.Runner.Gen(c); r := c.Res.Rule; c03dhcp.Runner.Gen(c); c.Res.Rule = r + " || DHCPv4 options: " + c.Res.Rule }, Eval: func(c *core.Ctx, l string) *core.Case {
+	"C03": {Gen: func(c *core.Ctx) {
+		c03.Runner.Gen(c)
+		r := c.Res.Rule
+		c03dhcp.Runner.Gen(c)
+		r = r + " || DHCPv4 options: " + c.Res.Rule
+		c03dns.Runner.Gen(c)
+		c.Res.Rule = r + " || DNS query: " + c.Res.Rule
+	}, Eval: func(c *core.Ctx, l string) *core.Case {
 		if cs := c03.Runner.Eval(c, l); cs != nil {
 			return cs
 		}
-		return c03dhcp.Runner.Eval(c, l)
+		if cs := c03dhcp.Runner.Eval(c, l); cs != nil {
+			return cs
+		}
+		return c03dns.Runner.Eval(c, l)
 	}},
 	"C04": c04.Runner,
 	"C05": c04.Runner,
@@ -57,6 +68,7 @@ var runners = map[string]core.Runner{
 	"C13": c13.Runner,
 	"C18": c18.Runner,
 	"C03Dhcp": c03dhcp.Runner,
+	"C03dns":  c03dns.Runner,
 	"C14": c14.Runner,
 	"C15": c15.Runner,
 	"C19": c19.Runner,
